@@ -195,4 +195,24 @@ CHECKS = {
         technique='exhaustive + Hypothesis interval sizes on the real partitioning; op-list merge plans through the real new_combiner/run/step/save/load with provenance-tracking engine fakes and crash/resume injection',
         text='MT/chrM sizes 1-5000 exhaustive for both genomes, whole-genome sizes to 3e8; hundreds of merge plans each with ~6 resume points: one final dataset built from exactly the inputs, each once; saved plan is a fixed point.',
         note='Part (b) says nothing about the engine merge itself. Three defects found were fixed.'),
+    'C02': dict(
+        level='exploration',
+        technique='Hypothesis histories weighted to attempts, heartbeats, late/duplicate completions, UTC day changes and compaction; all four billing aggregates recomputed from attempts x attempt_resources after every op',
+        text='~1k histories per quick run: usage per job, per job group with descendants, per billing project+user and summed over days == sum quantity x max(rollup-start,0); per-day rows only change on the current UTC day; compaction changes no total.',
+        note='Same engine limits as C01; RAND() token shards drawn by the harness.'),
+    'C03': dict(
+        level='fault_enumeration',
+        technique='Hypothesis-generated report sequences (schedule, started, heartbeat, complete, unschedule, deactivate, duplicates, out-of-order timestamps) through the real procedures and the attempts_before_update trigger; before/after row relation per op',
+        text='~1k histories per quick run: billed >= 0, bounded by end-start once ended, never decreases except on an earlier end / activation timeout, start only moves earlier, (end, reason) only change to an earlier end.',
+        note='Fault sequences are generated, not exhaustively enumerated; observed per op (each op issues at most one UPDATE per attempt row). activation_timeout only on never-activated instances (caller precondition).'),
+    'C06': dict(
+        level='exploration',
+        technique='Hypothesis histories with nested groups and multi-update submission; after every op every batch and visible job group is read through the real _get_batch/_get_job_group and compared with a recomputation over committed jobs',
+        text='~800 histories per quick run: complete flag, n_jobs, four tallies, state string, time_completed and visibility of uncommitted groups.',
+        note='Same engine limits as C01.'),
+    'C07': dict(
+        level='exploration',
+        technique='Hypothesis histories weighted to cancels in every order with creation, scheduling and completion inside / beside / above the cancelled subtree; before/after snapshot relations + "request answered normally" clause',
+        text='~1k histories per quick run (5 unguarded shards re-find the error-1242 finding, 11 guarded shards search behind it).',
+        note='Same engine limits as C01; error 1242 semantics of minimysql has its own self-test. One known finding (is_job_cancelled returns one row per cancelled ancestor).'),
 }
